@@ -90,7 +90,7 @@ def _referenced(name):
 def make_mesh_contracts(name):
     nverts = len(MESHES[name][0])
 
-    @contract("colliders.MeshGraph[%s].support_function" % name, fn="distance3d.colliders.MeshGraph.support_function", props=["C03", "C12"],
+    @contract("colliders.MeshGraph[%s].support_function" % name, fn="distance3d.colliders.MeshGraph.support_function", props=["C03"],
               deps=["distance3d.mesh.hill_climb_mesh_extreme", "distance3d.mesh.MeshHillClimbingSupportFunction.__call__",
                     "distance3d.mesh.MeshHillClimbingSupportFunction.__init__"])
     def _support(cx):
